@@ -20,10 +20,9 @@ def ex : Tree :=
     .node 5 ['b'] [] [.node 6 ['z'] [] []],
     .node 7 ['c'] [] []]
 
-/-- a full path and a bare name locate the nodes at addresses `[0]` and `[1]` -/
+/-- a full path and a bare name locate the nodes at addresses `[0]` and `[1]`, which are non-nested -/
 theorem ex_locate : locate ['/'] ex ['/'] [['/','r','/','a'], ['b']] = .ok [[0], [1]] := rfl
-/-- NESTED targets: `a` (address `[0]`) and, below it, `a/y/z` (address `[0, 1, 0]`) -/
-theorem ex_locate_nested : locate ['/'] ex ['/'] [['a'], ['y','/','z']] = .ok [[0], [0, 1, 0]] := rfl
+theorem ex_nonNested : NonNested [[0], [1]] := by unfold NonNested; decide
 
 /-- the kept-node predicate is closed under taking prefixes (ancestors) -/
 theorem pruneKeep_prefix_closed (ps : List Addr) (exact : Bool) (md : Nat) (b c : Addr)
@@ -42,13 +41,12 @@ theorem pruneKeep_prefix_closed (ps : List Addr) (exact : Bool) (md : Nat) (b c 
     · exact Or.inl h2
     · have := hcb.length_le; exact Or.inr (by omega)
 
-/-- **prune_order_attrs.** For located targets `ps` (ANY target list: since repair D11 also when one prune path
-    lies below another), `prune_tree` returns the
+/-- **prune_order_attrs.** For located, pairwise non-nested targets `ps`, `prune_tree` returns the
     input tree restricted to the nodes on a route to a target or (unless `exact`) below one, and
     within the depth limit: sibling order, ids, names and attributes are those of the input. -/
 theorem prune_order_attrs (treeSep : Str) (t : Tree) (paths : List Str) (exact : Bool) (sepArg : Str)
     (md : Nat) (ps : List Addr)
-    (hloc : locate treeSep t sepArg paths = .ok ps)
+    (hloc : locate treeSep t sepArg paths = .ok ps) (hnn : NonNested ps)
     (hne : paths ≠ [] ∨ md ≠ 0) :
     prune treeSep t paths exact sepArg md = .ok (restrict (pruneKeep ps exact md) [] t) := by
   have hlen := locate_length treeSep t sepArg paths ps hloc
@@ -78,7 +76,7 @@ theorem prune_order_attrs (treeSep : Str) (t : Tree) (paths : List Str) (exact :
       exact hp (List.length_eq_zero_iff.mp (by simpa using hlen.symm))
     have hpe : paths.isEmpty = false := by simpa [List.isEmpty_iff] using hp
     simp only [prunePaths, hpe, Bool.false_eq_true, if_false, hloc, Except.map]
-    have hdet := detach_targets ps exact hpsne t
+    have hdet := detach_targets ps exact hnn hpsne t
     unfold ancSet at hdet
     rw [hdet]
     have hpse : ps.isEmpty = false := by simpa [List.isEmpty_iff] using hpsne
@@ -109,16 +107,7 @@ example : prune ['/'] ex [['/','r','/','a'], ['b']] true ['/'] 0
     ∧ restrict (pruneKeep [[0], [1]] false 3) [] ex
       = .node 0 ['r'] [] [.node 1 ['a'] [(['k'], .int 1)] [.node 2 ['x'] [] [], .node 3 ['y'] [] []],
           .node 5 ['b'] [] [.node 6 ['z'] [] []]] :=
-  ⟨prune_order_attrs _ _ _ _ _ _ _ ex_locate (Or.inl (by simp)), rfl, rfl⟩
-
-/-- non-vacuity on NESTED targets (`a` and `a/y/z` below it): without `exact` all of `a`'s subtree is kept
-    (pre-D11 code kept only the route `r, a, y, z`); with `exact` only the routes are kept -/
-example : prune ['/'] ex [['a'], ['y','/','z']] false ['/'] 0
-      = .ok (.node 0 ['r'] [] [.node 1 ['a'] [(['k'], .int 1)] [.node 2 ['x'] [] [], .node 3 ['y'] [] [.node 4 ['z'] [] []]]])
-    ∧ prune ['/'] ex [['a'], ['y','/','z']] true ['/'] 0
-      = .ok (.node 0 ['r'] [] [.node 1 ['a'] [(['k'], .int 1)] [.node 3 ['y'] [] [.node 4 ['z'] [] []]]]) :=
-  ⟨(prune_order_attrs _ _ _ _ _ _ _ ex_locate_nested (Or.inl (by simp))).trans rfl,
-   (prune_order_attrs _ _ _ _ _ _ _ ex_locate_nested (Or.inl (by simp))).trans rfl⟩
+  ⟨prune_order_attrs _ _ _ _ _ _ _ ex_locate ex_nonNested (Or.inl (by simp)), rfl, rfl⟩
 
 /-- **prune_nodes.** The nodes of the result, listed in pre-order, are the nodes of the input at
     the kept addresses (with their ids, names and attributes), and an address is kept iff it is an
@@ -126,14 +115,14 @@ example : prune ['/'] ex [['a'], ['y','/','z']] false ['/'] 0
     its depth does not exceed `max_depth`. -/
 theorem prune_nodes (treeSep : Str) (t : Tree) (paths : List Str) (exact : Bool) (sepArg : Str)
     (md : Nat) (ps : List Addr)
-    (hloc : locate treeSep t sepArg paths = .ok ps)
+    (hloc : locate treeSep t sepArg paths = .ok ps) (hnn : NonNested ps)
     (hne : paths ≠ [] ∨ md ≠ 0) :
     ∃ r, prune treeSep t paths exact sepArg md = .ok r ∧
       preLabels r = (keptAddrs (pruneKeep ps exact md) [] t).filterMap (labelAt t) ∧
       ∀ a, a ∈ keptAddrs (pruneKeep ps exact md) [] t ↔
         a ∈ addrs [] t ∧ (ps = [] ∨ ∃ p ∈ ps, a <+: p ∨ (exact = false ∧ p <+: a))
           ∧ (md = 0 ∨ a.length + 1 ≤ md) := by
-  refine ⟨_, prune_order_attrs treeSep t paths exact sepArg md ps hloc hne,
+  refine ⟨_, prune_order_attrs treeSep t paths exact sepArg md ps hloc hnn hne,
     preLabels_restrict _ t t [] rfl, ?_⟩
   intro a
   rw [mem_keptAddrs _ (pruneKeep_prefix_closed ps exact md)]
@@ -160,7 +149,7 @@ example : keptAddrs (pruneKeep [[0], [1]] false 3) [] ex = [[], [0], [0, 0], [0,
     ∧ addrs [] ex = [[], [0], [0, 0], [0, 1], [0, 1, 0], [1], [1, 0], [2]] := ⟨rfl, rfl, rfl⟩
 example : ∃ r, prune ['/'] ex [['/','r','/','a'], ['b']] false ['/'] 3 = .ok r ∧ preLabels r
       = [(0, ['r'], []), (1, ['a'], [(['k'], .int 1)]), (2, ['x'], []), (3, ['y'], []), (5, ['b'], []), (6, ['z'], [])] := by
-  obtain ⟨r, h1, h2, _⟩ := prune_nodes ['/'] ex _ false ['/'] 3 _ ex_locate (Or.inl (by simp))
+  obtain ⟨r, h1, h2, _⟩ := prune_nodes ['/'] ex _ false ['/'] 3 _ ex_locate ex_nonNested (Or.inl (by simp))
   exact ⟨r, h1, h2⟩
 
 /-- **prune_order.** The kept nodes appear in the result in the order they have in the input
@@ -206,7 +195,7 @@ theorem subtree_eq (treeSep : Str) (anc : List Str) (t : Tree) (q : Str) (md : N
     · simp [hmd]
     · have : (md == 0) = false := by simpa using hmd
       simp only [this, Bool.false_eq_true, if_false, hmd]
-      have := prune_order_attrs treeSep v.sub [] false ['/'] md [] (by simp [locate])
+      have := prune_order_attrs treeSep v.sub [] false ['/'] md [] (by simp [locate]) (by intro p hp; simp at hp)
         (Or.inr hmd)
       rw [this]
       congr 2
@@ -232,7 +221,7 @@ theorem subtree_self (treeSep : Str) (anc : List Str) (t : Tree) (md : Nat) :
   · simp [hmd]
   · have : (md == 0) = false := by simpa using hmd
     simp only [this, Bool.false_eq_true, if_false, hmd]
-    have := prune_order_attrs treeSep t [] false ['/'] md [] (by simp [locate])
+    have := prune_order_attrs treeSep t [] false ['/'] md [] (by simp [locate]) (by intro p hp; simp at hp)
       (Or.inr hmd)
     rw [this]
     congr 2
